@@ -1026,8 +1026,11 @@ func bufferish(t types.Type, depth int) string {
 		return ""
 	}
 	switch q := core.QualNamedOf(t); q {
-	case "sync.Pool", "sync.Map", "bytes.Buffer", "container/list.List", "container/ring.Ring", "strings.Builder", "bufio.Reader", "bufio.Writer":
+	case "sync.Pool", "sync.Map", "bytes.Buffer", "container/list.List", "container/ring.Ring", "strings.Builder", "bufio.Reader", "bufio.Writer", "sync/atomic.Value":
 		return q
+	}
+	if strings.HasPrefix(core.QualNamedOf(t), "sync/atomic.Pointer") {
+		return "sync/atomic.Pointer"
 	}
 	switch u := t.Underlying().(type) {
 	case *types.Chan:
